@@ -17,7 +17,6 @@ package ocifilter
 import (
 	"context"
 	"io"
-	"path"
 	"strings"
 
 	"cuelabs.dev/go/oci/ociregistry"
@@ -189,11 +188,10 @@ func (r *subRegistry) mapScopes(ctx context.Context) context.Context {
 }
 
 func (r *subRegistry) repo(name string) string {
-	if name == "" {
-		// An empty repository name isn't allowed, so keep it
-		// like that so that the underlying registry will reject the
-		// empty name.
-		return ""
-	}
-	return path.Join(r.prefix, name)
+	// Note: don't use path.Join here, because that cleans
+	// the result, so a name such as "../foo" would address
+	// a repository outside the prefix. Any invalid name
+	// (including the empty name) remains invalid when
+	// prefixed, so it will still be rejected by the underlying registry.
+	return r.prefix + "/" + name
 }
